@@ -99,6 +99,7 @@ def check_case(case, ctx):
             libseed = case["libseed"]
             sub = {"ds": ds, "scheme": sch, "configs": [cfg], "one": one, "libseed": libseed}
             st, cons, ilps = algos.run_config(cfg, dataset, scheme, one, libseed)
+            ctx.unit()
             if st != "ok":
                 ctx.count("not_returned")      # C03 / C14 judge refusals and failures
                 continue
